@@ -172,6 +172,7 @@ func checkC08(c *Ctx) {
 	c.checkSnapshotBeforeChange()
 	c.checkLoaderRecordsFromOneRow()
 	c.checkActingUserNotSession("C08.1c-store-write-keyed-by-acting-user", "store-writes")
+	c.checkDelIdRecorded()
 }
 
 // checkCacheAfterStore: in a handler that persists a change, the mirrored topic fields are
